@@ -289,6 +289,12 @@ c05_env(T0N_CTXT *c)
 		unsigned kt = ND_U8();
 		size_t a = ND_SIZE(), b = ND_SIZE();
 		ASSUME(kt == 0 || kt == BR_KEYTYPE_RSA || kt == BR_KEYTYPE_EC);
+#ifdef C05_KEYLEN_ENUM
+		/* quick tier: key part lengths drawn from {0, 1, 5} x {0, 1, 3} (a fully symbolic split point
+		   inside the 3200-byte context costs minutes; thorough tier: any lengths <= C05_KB) */
+		a = (a % 3 == 0) ? 0 : (a % 3 == 1) ? 1 : 5;
+		b = (b % 3 == 0) ? 0 : (b % 3 == 1) ? 1 : 3;
+#endif
 		ASSUME(a <= C05_KB && b <= C05_KB);
 		c->pkey.key_type = (unsigned char)kt;
 		if (kt == BR_KEYTYPE_RSA) {
